@@ -3169,6 +3169,298 @@ func c11SkipRandom2(c *Ctx) bool {
 	return true
 }
 
+// ---- scripted graphs of the ordinary kind (P / Q / S with arrays), used by the wide, sn and deep
+// families: all wiring in the Data literals, every dependency has a smaller id
+
+type c11GNode struct {
+	kind byte // 'P', 'Q', 'S'
+	v    int  // initial value / salt
+	sc   []int
+	ar   [][]int
+}
+
+func c11BuildGraph(c *Ctx, fixed bool, desc []c11GNode) (*c11Case, string) {
+	cs := &c11Case{c: c, rec: &c11Rec{}, fresh: 100, fixed: fixed}
+	var req strings.Builder
+	fmt.Fprintf(&req, "%d", len(desc))
+	for i, d := range desc {
+		if d.kind != 'S' {
+			cs.nd = append(cs.nd, c11NewSource(c, d.kind, i, d.v, fixed))
+			fmt.Fprintf(&req, " %c %d", d.kind, d.v)
+			continue
+		}
+		lit := make([]c11In, len(d.sc))
+		for k, s := range d.sc {
+			if s >= i {
+				panic("c11: scripted graph with a dependency of larger id")
+			}
+			if s >= 0 {
+				lit[k] = cs.outOf(s)
+			}
+		}
+		alit := make([][]c11In, len(d.ar))
+		ar := make([][]int, len(d.ar))
+		for k, a := range d.ar {
+			alit[k] = []c11In{}
+			ar[k] = append([]int{}, a...)
+			for _, s := range a {
+				if s >= i {
+					panic("c11: scripted graph with a dependency of larger id")
+				}
+				alit[k] = append(alit[k], cs.outOf(s))
+			}
+		}
+		n := c11NewStruct(i, d.v, cs.rec, lit, alit, !fixed && c.Rng.Intn(2) == 0)
+		n.salt, n.sc, n.ar = d.v, append([]int{}, d.sc...), ar
+		cs.nd = append(cs.nd, n)
+		fmt.Fprintf(&req, " S %d ", d.v)
+		c11Wiring(&req, n.sc, n.ar)
+	}
+	return cs, req.String()
+}
+
+// emitDepOrder: 64 calls of Dependencies() of struct node i against the harness's bookkeeping
+func (cs *c11Case) emitDepOrder(i int) {
+	const reps = 64
+	n := cs.nd[i]
+	var rq, names strings.Builder
+	c11Wiring(&rq, n.sc, n.ar)
+	k := -1
+	okDeps := c11Guard(func() {
+		for t := 0; t < reps; t++ {
+			deps := n.node.Dependencies()
+			if k < 0 {
+				k = len(deps)
+			}
+			if len(deps) != k {
+				k = -2
+				names.WriteString(" length-changed")
+			}
+			for _, d := range deps {
+				names.WriteString(" " + d.Name())
+			}
+		}
+	})
+	if !okDeps {
+		names.WriteString(" panic")
+	}
+	cs.c.Emit("c11.holds.deporder", fmt.Sprintf("%s @ %d %d%s", rq.String(), reps, k, names.String()), "true")
+}
+
+// emitOrdinary: the four lines of an ordinary history
+func c11EmitOrdinary(c *Ctx, header string, ops []string, ans *strings.Builder) {
+	q := header + " " + strconv.Itoa(len(ops))
+	if len(ops) > 0 {
+		q += " " + strings.Join(ops, " ")
+	}
+	a := strings.TrimPrefix(ans.String(), " ")
+	c.Emit("c11.hist", q, a)
+	c.Emit("c11.holds.fresh", q+" @ "+a, "true")
+	c.Emit("c11.holds.no_spurious", q+" @ "+a, "true")
+	c.Emit("c11.holds.version", q+" @ "+a, "true")
+}
+
+// ---- wide family: a node with 13-40 dependencies on three or more ports incl. both array ports,
+// sources at different versions, long runs of idle reads, changes in the middle of a long array
+
+func c11WideHistory(c *Ctx) {
+	r := c.Rng
+	var desc []c11GNode
+	small := func() int { return 1 + r.Intn(99) }
+	pk := func() byte {
+		if r.Intn(2) == 0 {
+			return 'Q'
+		}
+		return 'P'
+	}
+	var params, srcs []int
+	for k := 4 + r.Intn(5); k > 0; k-- {
+		params = append(params, len(desc))
+		desc = append(desc, c11GNode{kind: pk(), v: small()})
+	}
+	srcs = append(srcs, params...)
+	// shallow struct sources (over parameters; one of them maybe over another one)
+	var shallow []int
+	for k := 2 + r.Intn(3); k > 0; k-- {
+		i := len(desc)
+		sc := []int{params[r.Intn(len(params))]}
+		if r.Intn(2) == 0 {
+			sc = append(sc, params[r.Intn(len(params))])
+		}
+		if len(shallow) > 0 && r.Intn(4) == 0 {
+			sc[0] = shallow[r.Intn(len(shallow))]
+		}
+		desc = append(desc, c11GNode{kind: 'S', v: 1 + r.Intn(100000), sc: sc})
+		shallow = append(shallow, i)
+		srcs = append(srcs, i)
+	}
+	// the wide node
+	wide := len(desc)
+	ns := 1 + r.Intn(4)
+	sc := make([]int, ns)
+	for k := range sc {
+		sc[k] = srcs[r.Intn(len(srcs))]
+	}
+	if ns >= 2 && r.Intn(3) == 0 {
+		sc[r.Intn(ns)] = -1
+	}
+	hot := srcs[r.Intn(len(srcs))] // a source that occurs several times in one array and in both
+	mk := func(n int, hotCount int) []int {
+		a := make([]int, n)
+		for k := range a {
+			a[k] = srcs[r.Intn(len(srcs))]
+		}
+		for ; hotCount > 0; hotCount-- {
+			a[r.Intn(n)] = hot
+		}
+		return a
+	}
+	xs := mk(5+r.Intn(14), 2+r.Intn(3))
+	ys := mk(5+r.Intn(14), 1+r.Intn(3))
+	for len(xs)+len(ys)+ns < 14 { // at least 13 dependencies even with one nil scalar port
+		xs = append(xs, srcs[r.Intn(len(srcs))])
+	}
+	desc = append(desc, c11GNode{kind: 'S', v: 1 + r.Intn(100000), sc: sc, ar: [][]int{xs, ys}})
+	down := -1
+	if r.Intn(10) < 7 {
+		down = len(desc)
+		if r.Intn(2) == 0 {
+			desc = append(desc, c11GNode{kind: 'S', v: 1 + r.Intn(100000), sc: []int{wide}})
+		} else {
+			desc = append(desc, c11GNode{kind: 'S', v: 1 + r.Intn(100000), sc: []int{params[0]}, ar: [][]int{{wide, params[r.Intn(len(params))]}}})
+		}
+	}
+	cs, header := c11BuildGraph(c, false, desc)
+	ndeps := func() int {
+		n := cs.nd[wide]
+		k := len(n.ar[0]) + len(n.ar[1])
+		for _, s := range n.sc {
+			if s >= 0 {
+				k++
+			}
+		}
+		return k
+	}
+	switch d := ndeps(); {
+	case d < 13:
+		c.Note("wide.deps=11-12")
+	case d <= 16:
+		c.Note("wide.deps=13-16")
+	case d <= 24:
+		c.Note("wide.deps=17-24")
+	case d <= 32:
+		c.Note("wide.deps=25-32")
+	default:
+		c.Note("wide.deps=33-40")
+	}
+	c.Note("wide.histories")
+	var ans strings.Builder
+	var ops []string
+	do := func(o c11Op) (bool, int) {
+		ok, execs := cs.exec(o, &ans)
+		ops = append(ops, o.String())
+		c.Note("wide.op." + o.kind)
+		if !ok {
+			c.Note("wide.op.PANIC")
+		}
+		return ok, execs
+	}
+	// phase 1: the sources get to DIFFERENT versions before the first read
+	var sets []int
+	for _, p := range params {
+		for k := r.Intn(5); k > 0; k-- {
+			sets = append(sets, p)
+		}
+	}
+	r.Shuffle(len(sets), func(a, b int) { sets[a], sets[b] = sets[b], sets[a] })
+	for k, p := range sets {
+		do(c11Op{kind: "sp", a: p, b: cs.freshVal()})
+		if k%4 == 3 && r.Intn(2) == 0 { // struct sources move too: read one in between
+			do(c11Op{kind: "rd", a: shallow[r.Intn(len(shallow))]})
+		}
+	}
+	distinct := map[int]bool{}
+	for _, a := range cs.nd[wide].ar {
+		for _, s := range a {
+			distinct[cs.nd[s].node.Version()] = true
+		}
+	}
+	if len(distinct) >= 3 {
+		c.Note("wide.array-sources-at-3+-distinct-versions")
+	} else if len(distinct) == 2 {
+		c.Note("wide.array-sources-at-2-distinct-versions")
+	} else {
+		c.Note("wide.array-sources-all-at-one-version")
+	}
+	inBoth := false
+	for _, s := range cs.nd[wide].ar[0] {
+		for _, t := range cs.nd[wide].ar[1] {
+			inBoth = inBoth || s == t
+		}
+	}
+	if inBoth {
+		c.Note("wide.same-source-in-both-arrays")
+	}
+	// phase 2..: runs of idle reads, separated by ONE change
+	targets := []int{wide}
+	if down >= 0 {
+		targets = append(targets, down, down)
+	}
+	for round, rounds := 0, 2+r.Intn(3); round <= rounds; round++ {
+		for k := 5 + r.Intn(6); k > 0; k-- {
+			_, execs := do(c11Op{kind: "rd", a: targets[r.Intn(len(targets))]})
+			if execs == 0 && len(cs.lastY) == 0 {
+				c.Note("wide.idle-reads")
+			} else {
+				c.Note("wide.reads-that-executed")
+			}
+			if len(cs.lastY) > 0 {
+				c.Note("wide.SECOND-READ-EXECUTED")
+			}
+		}
+		if round == rounds {
+			break
+		}
+		n := cs.nd[wide]
+		switch r.Intn(4) {
+		case 0, 1: // a Set of ONE source of the wide node
+			var cand []int
+			for _, a := range n.ar {
+				for _, s := range a {
+					if cs.nd[s].kind != 'S' {
+						cand = append(cand, s)
+					}
+				}
+			}
+			p := params[r.Intn(len(params))]
+			if len(cand) > 0 {
+				p = cand[r.Intn(len(cand))]
+			}
+			do(c11Op{kind: "sp", a: p, b: cs.freshVal()})
+			c.Note("wide.change.set-one-source")
+		case 2: // remove from the middle of a long array
+			k := r.Intn(2)
+			if len(n.ar[k]) < 4 {
+				k = 1 - k
+			}
+			if len(n.ar[k]) >= 3 {
+				do(c11Op{"ar", wide, k, 1 + r.Intn(len(n.ar[k])-2)})
+				c.Note("wide.change.ar-in-the-middle")
+			}
+		default: // append to an array
+			do(c11Op{"aa", wide, r.Intn(2), srcs[r.Intn(len(srcs))]})
+			c.Note("wide.change.aa")
+		}
+	}
+	cs.errNotes()
+	c11EmitOrdinary(c, header, ops, &ans)
+	for i, n := range cs.nd {
+		if n.kind == 'S' {
+			cs.emitDepOrder(i)
+		}
+	}
+}
+
 const c11SkipRandomN = 300
 const c11SkipRandom2N = 200
 
@@ -3190,6 +3482,14 @@ func runC11(c *Ctx) {
 	}
 	for k := 0; k < nm; k++ {
 		c11MsgHistory(c)
+	}
+	// wide family: ~150 histories in the quick tier
+	nw := c.N / 40
+	if nw < 20 {
+		nw = 20
+	}
+	for k := 0; k < nw; k++ {
+		c11WideHistory(c)
 	}
 	for k := 0; k < c.N; k++ {
 		c11History(c, k%2 == 0)
